@@ -311,7 +311,13 @@ pub fn run(args: &Args, rep: &mut Report) {
         scfg.short_dev = if args.flag("short") && rng.chance(1, 3) { Some(rng.next_u64()) } else { None };
         scfg.shadow_mount = args.flag("shadow");
         scfg.lib_walk = !args.flag("nolibwalk");
-        scfg.opt_order = rng.below(6) as u8;
+        scfg.opt_order = rng.below(12) as u8;
+        // a clock that stands still (what NullTimeProvider gives): new stamps equal the stored ones, so nothing may
+        // depend on a stamp having changed. The C18 stamping rules need distinguishable instants and are not judged then.
+        if rng.chance(1, 8) {
+            scfg.frozen_clock = true;
+            scfg.props.remove("C18");
+        }
         scfg.tolerate_baseline_diags = builder_label.is_some();
         let cls_name = builder_label.clone().map(|l| format!("builder:{}", l.split("-res").next().unwrap_or(""))).unwrap_or_else(|| vc.class());
         let class = fnv_of(&[&cls_name, if scfg.short_dev.is_some() { "short" } else { "full" }]);
